@@ -33,6 +33,13 @@ inductive NOp where
   | update (kvs : List (PyVal × PyVal))
   | setdefault (k v : PyVal)
   | ior (kvs : List (PyVal × PyVal))
+  /-- `xs[lo:hi:step] = vs` (`none` = the bound is left out) -/
+  | setslice (lo hi step : Option Int) (vs : List PyVal)
+  /-- `del xs[lo:hi:step]` -/
+  | delslice (lo hi step : Option Int)
+  /-- `sort(key=<one of a fixed menu of key functions>, reverse=…)`:
+      key "" = none, "neg" = `lambda v: -v`, "abs" = `abs`, "const" = `lambda v: 0` -/
+  | sortWith (key : String) (reverse : Bool)
 deriving Repr, Inhabited
 
 def NOp.name : NOp → String
@@ -42,6 +49,7 @@ def NOp.name : NOp → String
   | .popitem => "popitem" | .clear => "clear" | .sort => "sort" | .reverse => "reverse"
   | .rotate _ => "rotate" | .iadd _ => "__iadd__" | .imul _ => "__imul__" | .update _ => "update"
   | .setdefault _ _ => "setdefault" | .ior _ => "__ior__"
+  | .setslice _ _ _ _ => "__setitem__" | .delslice _ _ _ => "__delitem__" | .sortWith _ _ => "sort"
 
 /-- Python index normalisation for item access: negative counts from the end; out of range = none -/
 def normIndex (len : Nat) (i : Int) : Option Nat :=
@@ -128,6 +136,116 @@ def intOf : PyVal → Option Int
   | .bool b => some (if b then 1 else 0)
   | _ => none
 
+/-! ### slices (`slice.indices`) -/
+
+/-- a slice bound clamped the way `slice.indices(len)` does it -/
+def clampBound (len : Nat) (neg : Bool) (i : Int) : Int :=
+  if i < 0 then
+    (if i + len < 0 then (if neg then -1 else 0) else i + len)
+  else
+    (if neg then (if i ≥ len then (len : Int) - 1 else i) else (if i > len then (len : Int) else i))
+
+/-- `start, start+step, …` while before `stop` (`fuel` bounds the count by the list length) -/
+def sliceWalk : Nat → Int → Int → Int → List Nat
+  | 0, _, _, _ => []
+  | fuel + 1, cur, stop, step =>
+    if (step > 0 ∧ cur < stop) ∨ (step < 0 ∧ cur > stop) then cur.toNat :: sliceWalk fuel (cur + step) stop step
+    else []
+
+/-- the positions selected by `[lo:hi:step]` on a sequence of length `len`, in slice order;
+    `none` = `step == 0` (ValueError) -/
+def sliceIdx (len : Nat) (lo hi step : Option Int) : Option (List Nat) :=
+  let st := step.getD 1
+  if st == 0 then none
+  else
+    let neg := decide (st < 0)
+    let start := match lo with | some i => clampBound len neg i | none => if neg then (len : Int) - 1 else 0
+    let stop := match hi with | some i => clampBound len neg i | none => if neg then -1 else (len : Int)
+    some (sliceWalk len start stop st)
+
+def delIdxs (xs : List PyVal) (idxs : List Nat) : List PyVal :=
+  ((List.range xs.length).zip xs).filterMap (fun p => if idxs.contains p.1 then none else some p.2)
+
+def setIdxs : List PyVal → List Nat → List PyVal → List PyVal
+  | xs, i :: is, v :: vs => setIdxs (setAt xs i v) is vs
+  | xs, _, _ => xs
+
+/-- `xs[lo:hi:step] = vs`: a plain slice (step left out or 1) is replaced by any number of
+    elements, an extended slice only by exactly as many as it selects (else ValueError) -/
+def setSlice (xs : List PyVal) (lo hi step : Option Int) (vs : List PyVal) : Except NErr (List PyVal) :=
+  match sliceIdx xs.length lo hi step with
+  | none => .error .valueErr
+  | some idxs =>
+    if step.getD 1 == 1 then
+      let start := match lo with | some i => (clampBound xs.length false i).toNat | none => 0
+      let stop := match hi with | some i => (clampBound xs.length false i).toNat | none => xs.length
+      .ok (xs.take start ++ vs ++ xs.drop (if stop < start then start else stop))
+    else if vs.length != idxs.length then .error .valueErr
+    else .ok (setIdxs xs idxs vs)
+
+def delSlice (xs : List PyVal) (lo hi step : Option Int) : Except NErr (List PyVal) :=
+  match sliceIdx xs.length lo hi step with
+  | none => .error .valueErr
+  | some idxs => .ok (delIdxs xs idxs)
+
+/-! ### `sort(key=, reverse=)` -/
+
+def qNeg (q : Q) : Q := ⟨-q.num, q.den⟩
+
+def negVal : PyVal → Option PyVal
+  | .int i => some (.int (-i))
+  | .bool b => some (.int (if b then -1 else 0))
+  | .float q => some (.float (qNeg q))
+  | .dec q => some (.dec (qNeg q))
+  | _ => none
+
+def absVal : PyVal → Option PyVal
+  | .int i => some (.int (if i < 0 then -i else i))
+  | .bool b => some (.int (if b then 1 else 0))
+  | .float q => some (.float (if Q.lt q (Q.ofInt 0) then qNeg q else q))
+  | .dec q => some (.dec (if Q.lt q (Q.ofInt 0) then qNeg q else q))
+  | _ => none
+
+/-- the key functions of the menu; `none` = the key function raises TypeError -/
+def sortKey (key : String) (v : PyVal) : Option PyVal :=
+  if key == "" then some v
+  else if key == "neg" then negVal v
+  else if key == "abs" then absVal v
+  else some (.int 0)
+
+/-- stable insertion of a keyed element -/
+def insertSortedK (x : PyVal × PyVal) : List (PyVal × PyVal) → Option (List (PyVal × PyVal))
+  | [] => some [x]
+  | y :: ys => match pyLt y.1 x.1 with
+    | none => none
+    | some true => (insertSortedK x ys).map (y :: ·)
+    | some false => some (x :: y :: ys)
+
+def sortListK : List (PyVal × PyVal) → Option (List (PyVal × PyVal))
+  | [] => some []
+  | x :: xs => (sortListK xs).bind (insertSortedK x)
+
+def keyAll (key : String) : List PyVal → Option (List (PyVal × PyVal))
+  | [] => some []
+  | v :: vs => match sortKey key v with
+    | none => none
+    | some k => (keyAll key vs).map ((k, v) :: ·)
+
+/-- `list.sort(key=…, reverse=…)`: the keys are computed first (a raising key function is a
+    TypeError), then a stable sort by key; `reverse=True` keeps equal elements in their original
+    order (= reverse, stable sort, reverse) -/
+def pySortWith (key : String) (reverse : Bool) (xs : List PyVal) : Except NErr (List PyVal) :=
+  match keyAll key xs with
+  | none => .error .typeErr
+  | some kvs =>
+    match kvs with
+    | [] => .ok []
+    | [p] => .ok [p.2]
+    | _ =>
+      match sortListK (if reverse then kvs.reverse else kvs) with
+      | none => .error .typeErr
+      | some ys => .ok (if reverse then (ys.map (·.2)).reverse else ys.map (·.2))
+
 /-- mutators of `list` and `collections.deque` on the element list -/
 def nativeSeq (isDeque : Bool) (op : NOp) (xs : List PyVal) : Except NErr (List PyVal) :=
   match op with
@@ -149,9 +267,10 @@ def nativeSeq (isDeque : Bool) (op : NOp) (xs : List PyVal) : Except NErr (List 
   | .remove v => match removeFirst xs v with
     | none => .error .valueErr
     | some ys => .ok ys
-  | .pop k _ =>
+  | .pop k dflt =>
     if isDeque then
       (if xs.isEmpty then .error .indexErr else .ok xs.dropLast)
+    else if dflt.isSome then .error .typeErr     -- `list.pop` takes at most one argument
     else match k with
       | none => if xs.isEmpty then .error .indexErr else .ok xs.dropLast
       | some kv => match intOf kv with
@@ -166,6 +285,9 @@ def nativeSeq (isDeque : Bool) (op : NOp) (xs : List PyVal) : Except NErr (List 
   | .rotate n => if isDeque then .ok (rotateRight xs n) else .error .typeErr
   | .iadd vs => .ok (xs ++ vs)
   | .imul n => .ok (repeatList xs n.toNat)
+  | .setslice lo hi step vs => if isDeque then .error .typeErr else setSlice xs lo hi step vs
+  | .delslice lo hi step => if isDeque then .error .typeErr else delSlice xs lo hi step
+  | .sortWith key reverse => if isDeque then .error .typeErr else pySortWith key reverse xs
   | _ => .error .typeErr
 
 def dictDel (k : PyVal) : List (PyVal × PyVal) → Option (List (PyVal × PyVal))
